@@ -19,7 +19,10 @@ import (
 	"fmt"
 	"os"
 	"os/exec"
+	"runtime"
 	"runtime/debug"
+	"strings"
+	"sync"
 	"sync/atomic"
 	"syscall"
 	"time"
@@ -31,12 +34,16 @@ import (
 //	T = "prefixes":       ReadFrom(B[:n]) for every n in Lens                    → len(Lens) lines
 //	T = "probe":          reopen the store in Dir and probe it per modality      → 1 line (JSON)
 type cdcReadJob struct {
-	T    string      `json:"t,omitempty"`
-	P    cdcCparams  `json:"p"`
-	B    string      `json:"b,omitempty"` // hex
-	Lens []int       `json:"lens,omitempty"`
-	Dir  string      `json:"dir,omitempty"`
-	Pr   cdcSegProbe `json:"pr,omitempty"`
+	T      string      `json:"t,omitempty"`
+	P      cdcCparams  `json:"p"`
+	B      string      `json:"b,omitempty"` // hex
+	Lens   []int       `json:"lens,omitempty"`
+	Mode   int         `json:"mode,omitempty"` // reader the bytes are delivered through (codec_readers.go)
+	Seed   uint64      `json:"seed,omitempty"`
+	Bounds []int       `json:"bounds,omitempty"`
+	Pieces []int       `json:"pieces,omitempty"`
+	Dir    string      `json:"dir,omitempty"`
+	Pr     cdcSegProbe `json:"pr,omitempty"`
 }
 
 type cdcProbeAnswer struct {
@@ -45,7 +52,7 @@ type cdcProbeAnswer struct {
 
 func init() {
 	if len(os.Args) > 1 && os.Args[1] == "-readchild" {
-		lim := uint64(6) << 30
+		lim := uint64(3) << 30
 		syscall.Setrlimit(syscall.RLIMIT_AS, &syscall.Rlimit{Cur: lim, Max: lim})
 		debug.SetGCPercent(50)
 		in := bufio.NewReaderSize(os.Stdin, 1<<20)
@@ -61,12 +68,36 @@ func init() {
 					switch j.T {
 					case "prefixes":
 						b, _ := hex.DecodeString(j.B)
-						for _, n := range j.Lens {
+						for k, n := range j.Lens {
 							if n > len(b) {
 								n = len(b)
 							}
-							o, _, msg := cdcReadOutcome(j.P, b[:n])
-							fmt.Fprintf(out, "%c %s\n", o, msg)
+							// every prefix length through another reader (Mode < 0: all plain)
+							mode := 0
+							if j.Mode >= 0 {
+								mode = (n + j.Mode) % len(cdcReaderModes)
+							}
+							if n > 8192 {
+								// long prefixes: only the readers that cost O(1) calls per field
+								switch cdcReaderModes[mode] {
+								case "onebyte", "chunks1to7":
+									mode = 3 // half
+								case "gzipblocks":
+									mode = 7 // multi
+								}
+							}
+							var bs []int
+							for _, x := range j.Bounds {
+								if x <= n {
+									bs = append(bs, x)
+								}
+							}
+							o, _, msg := cdcReadOutcomeVia(j.P, b[:n], mode, j.Seed+uint64(n), bs, nil)
+							fat := ""
+							if k%64 == 63 || k == len(j.Lens)-1 {
+								fat = cdcFatMark()
+							}
+							fmt.Fprintf(out, "%c %s%s\n", o, cdcOneLine(msg), fat)
 							out.Flush()
 						}
 					case "probe":
@@ -78,8 +109,33 @@ func init() {
 						out.Flush()
 					default:
 						b, _ := hex.DecodeString(j.B)
-						o, _, msg := cdcReadOutcome(j.P, b)
-						fmt.Fprintf(out, "%c %s\n", o, msg)
+						var m0, m1 runtime.MemStats
+						runtime.ReadMemStats(&m0)
+						o, idx, msg := cdcReadOutcomeVia(j.P, b, j.Mode, j.Seed, j.Bounds, j.Pieces)
+						runtime.ReadMemStats(&m1)
+						// a read that allocated hundreds of megabytes for a stream of a few KB took
+						// garbage for a length, and an index that exports far more state than its stream
+						// can hold was mis-read: the parent must not repeat either in its own process
+						if o == 'o' && m1.TotalAlloc-m0.TotalAlloc > 512<<20 {
+							o, msg = 'p', fmt.Sprintf("ReadFrom succeeded after allocating %d MB for a stream of %d bytes", (m1.TotalAlloc-m0.TotalAlloc)>>20, len(b))
+						}
+						if o == 'o' && idx != nil {
+							func() {
+								defer func() {
+									if r := recover(); r != nil {
+										o, msg = 'p', "exporting the state of the reloaded index panicked: "+fmt.Sprint(r)
+									}
+								}()
+								size := 0
+								for _, t := range idx.content() {
+									size += len(t) + 1
+								}
+								if size > 256*(len(b)+1024) {
+									o, msg = 'p', fmt.Sprintf("the reloaded index exports %d bytes of state for a stream of %d bytes", size, len(b))
+								}
+							}()
+						}
+						fmt.Fprintf(out, "%c %s%s\n", o, cdcOneLine(msg), cdcFatMark())
 						out.Flush()
 					}
 				}
@@ -89,6 +145,29 @@ func init() {
 			}
 		}
 	}
+}
+
+// cdcOneLine keeps an answer on one line (error texts quote bytes of the stream).
+func cdcOneLine(s string) string {
+	return strings.Map(func(r rune) rune {
+		if r < 0x20 || r == 0x7f {
+			return ' '
+		}
+		return r
+	}, s)
+}
+
+// cdcFatMark is appended to an answer when the child's memory has grown large (a mis-read
+// length made it allocate): the parent then does not reuse this child.
+const cdcFat = "\x01fat"
+
+func cdcFatMark() string {
+	var m runtime.MemStats
+	runtime.ReadMemStats(&m)
+	if m.Sys > 768<<20 {
+		return cdcFat
+	}
+	return ""
 }
 
 // the deadline of one answer: generous against the largest legitimate read (milliseconds);
@@ -104,9 +183,11 @@ func cdcDeadline() time.Duration {
 
 // cdcChild is one guarded child process.
 type cdcChild struct {
-	cmd   *exec.Cmd
-	in    *bufio.Writer
-	lines chan string // answer lines; closed when the child's stdout ends
+	served int  // jobs sent so far
+	fat    bool // its memory has grown large: not reused
+	cmd    *exec.Cmd
+	in     *bufio.Writer
+	lines  chan string // answer lines; closed when the child's stdout ends
 }
 
 func cdcStartChild() *cdcChild {
@@ -142,10 +223,51 @@ func (c *cdcChild) kill() {
 	c.cmd = nil
 }
 
-// cdcGuard runs jobs in a child that is restarted whenever it dies or stalls.
+// idle children, reused by later guards (starting a process per read costs more than the
+// read; only a child that answered everything it was asked goes back)
+var cdcPoolMu sync.Mutex
+var cdcPool []*cdcChild
+
+func cdcPoolGet() *cdcChild {
+	cdcPoolMu.Lock()
+	defer cdcPoolMu.Unlock()
+	if n := len(cdcPool); n > 0 {
+		c := cdcPool[n-1]
+		cdcPool = cdcPool[:n-1]
+		return c
+	}
+	return nil
+}
+
+func cdcPoolPut(c *cdcChild) {
+	cdcPoolMu.Lock()
+	if len(cdcPool) < 24 && c.served < 4000 {
+		cdcPool = append(cdcPool, c)
+		c = nil
+	}
+	cdcPoolMu.Unlock()
+	if c != nil {
+		c.kill()
+	}
+}
+
+// cdcGuard runs jobs in a child that is replaced whenever it dies or stalls.
 type cdcGuard struct{ c *cdcChild }
 
+// close hands a healthy child back to the pool.
 func (g *cdcGuard) close() {
+	if g.c != nil && g.c.cmd != nil {
+		if g.c.fat {
+			g.c.kill()
+		} else {
+			cdcPoolPut(g.c)
+		}
+	}
+	g.c = nil
+}
+
+// drop kills the child (it died, stalled or is in an unknown state).
+func (g *cdcGuard) drop() {
 	g.c.kill()
 	g.c = nil
 }
@@ -156,17 +278,29 @@ func (g *cdcGuard) close() {
 // process could be started.
 func (g *cdcGuard) ask(j cdcReadJob, n int) (answers []string, status string) {
 	if g.c == nil {
-		g.c = cdcStartChild()
+		if g.c = cdcPoolGet(); g.c == nil {
+			g.c = cdcStartChild()
+		}
 		if g.c == nil {
 			return nil, "nochild"
 		}
 	}
+	g.c.served++
 	enc, _ := json.Marshal(j)
 	g.c.in.Write(enc)
 	g.c.in.WriteByte('\n')
 	if g.c.in.Flush() != nil {
-		g.close()
-		return nil, "crashed"
+		// a pooled child may have died meanwhile: once more with a fresh one
+		g.drop()
+		if g.c = cdcStartChild(); g.c == nil {
+			return nil, "nochild"
+		}
+		g.c.in.Write(enc)
+		g.c.in.WriteByte('\n')
+		if g.c.in.Flush() != nil {
+			g.drop()
+			return nil, "crashed"
+		}
 	}
 	for len(answers) < n {
 		timer := time.NewTimer(cdcDeadline())
@@ -174,13 +308,17 @@ func (g *cdcGuard) ask(j cdcReadJob, n int) (answers []string, status string) {
 		case l, ok := <-g.c.lines:
 			timer.Stop()
 			if !ok {
-				g.close()
+				g.drop()
 				return answers, "crashed"
+			}
+			if strings.HasSuffix(l, cdcFat) {
+				l = strings.TrimSuffix(l, cdcFat)
+				g.c.fat = true
 			}
 			answers = append(answers, l)
 		case <-timer.C:
 			cdcHangSeen.Store(true)
-			g.close()
+			g.drop()
 			return answers, "hang"
 		}
 	}
@@ -192,14 +330,19 @@ const cdcHangMsg = "did not return (no answer before the deadline; the reading p
 
 // read runs one ReadFrom; outcomes 'e' / 'o' / 'p' (panic or crash) / 'h' (hang).
 func (g *cdcGuard) read(p cdcCparams, b []byte) (byte, string) {
-	a, st := g.ask(cdcReadJob{P: p, B: cdcHexStr(b)}, 1)
+	return g.readVia(p, b, 0, 0, nil, nil)
+}
+
+// readVia runs one ReadFrom through a reader of the given mode.
+func (g *cdcGuard) readVia(p cdcCparams, b []byte, mode int, seed uint64, bounds, pieces []int) (byte, string) {
+	a, st := g.ask(cdcReadJob{P: p, B: cdcHexStr(b), Mode: mode, Seed: seed, Bounds: bounds, Pieces: pieces}, 1)
 	switch st {
 	case "crashed":
 		return 'p', cdcCrashMsg
 	case "hang":
 		return 'h', cdcHangMsg
 	case "nochild":
-		o, _, msg := cdcReadOutcome(p, b)
+		o, _, msg := cdcReadOutcomeVia(p, b, mode, seed, bounds, pieces)
 		return o, msg
 	}
 	return cdcParseOutcome(a[0])
@@ -217,13 +360,13 @@ func cdcParseOutcome(l string) (byte, string) {
 
 // prefixes reads b[:n] for every n of lens, in order, and stops at the first length on
 // which ReadFrom crashed or did not return (outs is then shorter than lens + that one).
-func (g *cdcGuard) prefixes(p cdcCparams, b []byte, lens []int) (outs []byte, msgs []string) {
+func (g *cdcGuard) prefixes(p cdcCparams, b []byte, lens []int, mode int, seed uint64, bounds []int) (outs []byte, msgs []string) {
 	for len(outs) < len(lens) {
 		rest := lens[len(outs):]
 		if len(rest) > 1024 {
 			rest = rest[:1024]
 		}
-		a, st := g.ask(cdcReadJob{T: "prefixes", P: p, B: cdcHexStr(b), Lens: rest}, len(rest))
+		a, st := g.ask(cdcReadJob{T: "prefixes", P: p, B: cdcHexStr(b), Lens: rest, Mode: mode, Seed: seed, Bounds: bounds}, len(rest))
 		for _, l := range a {
 			o, m := cdcParseOutcome(l)
 			outs, msgs = append(outs, o), append(msgs, m)
@@ -235,7 +378,7 @@ func (g *cdcGuard) prefixes(p cdcCparams, b []byte, lens []int) (outs []byte, ms
 			return append(outs, 'h'), append(msgs, cdcHangMsg)
 		case "nochild":
 			for _, n := range rest {
-				o, _, m := cdcReadOutcome(p, b[:n])
+				o, _, m := cdcReadOutcomeVia(p, b[:n], 0, 0, nil, nil)
 				outs, msgs = append(outs, o), append(msgs, m)
 			}
 		}
